@@ -65,7 +65,7 @@ Proof.
   first [ reflexivity
         | unfold gen_splitA, splitA; gnorm; rewrite ?gen_median_item;
           rewrite fold4_flat by step4; gnorm; cbn [app];
-          id_filters; reflexivity ].
+          id_filters; first [ reflexivity | ifs_solve ] ].
 Qed.
 
 Lemma gen_splitB_eq best worst obj : gen_splitB best worst obj = splitB best worst obj.
@@ -73,7 +73,7 @@ Proof.
   first [ reflexivity
         | unfold gen_splitB, splitB; gnorm; rewrite ?gen_median_item;
           rewrite !fold4_flat by step4; gnorm; cbn [app];
-          id_filters; reflexivity ].
+          id_filters; first [ reflexivity | ifs_solve ] ].
 Qed.
 
 (* ---- sweepA: the regenerated loop and the model's fold run in lock-step ---- *)
@@ -136,7 +136,9 @@ Lemma zlen_2_inv {A} (l : list A) : zlen l = 2 -> exists a b, l = [a; b].
 Proof. destruct l as [|a [|b [|c l]]]; unfold zlen; cbn [length]; try lia. eauto. Qed.
 
 Ltac same_ifs := repeat match goal with |- (if ?c then _ else _) = (if ?c then _ else _) => destruct c eqn:? end.
+Ltac upto_norm := repeat match goal with |- context[@slice_to Z ?s ?e] => change (@slice_to Z s e) with (upto s e) end.
 Ltac bool_cases :=
+  upto_norm;
   repeat match goal with
   | |- context[is_dominated ?a ?b] => destruct (is_dominated a b)
   | |- context[key_eqb ?a ?b] => destruct (key_eqb a b)
@@ -169,7 +171,6 @@ Ltac hA_branch IH :=
   first [ reflexivity
         | zb2p; match goal with H : zlen ?fs = 2 |- _ => destruct (zlen_2_inv fs H) as (? & ? & ->) end;
           rewrite ?py_nth_0, ?py_nth_1, ?gen_isDominated_eq; unfold fbump;
-          repeat match goal with |- context[slice_to ?s ?e] => change (slice_to s e) with (upto s e) end;
           bool_cases
         | calls IH; reflexivity
         | match goal with |- context[splitA ?f ?o] => destruct (splitA f o) as [? ?] end;
